@@ -34,6 +34,10 @@ def after_own_close(ctx):
 def main(ctx):
     recv_common.run_for(ctx, "C07")
     after_own_close(ctx)
+    # the automatic pong while other threads of the same connection send pings / pongs of their own (schedules of C12's
+    # world): the answer carries the payload of the server's ping, whole and once
+    from . import c12
+    c12.validate_schedules(ctx, "C07", c12.ping_scenarios(ctx.tier), "c07_sched", own=("C12", "C07"))
     ctx.trusted += ["TLC 1.8 / CommunityModules", "harness: scripted transport + projection (vf/recvworld.py)",
                     "independent frame builder vf/wire.py"]
     ctx.assumptions += ["transport behaviour is simulated (scripted cuts, timeouts, EOF, reset)"]
